@@ -54,6 +54,12 @@ def gen_lines(rng, tier):
                 out.append("aes_enc %d %s %s %s" % (max(0, cap - 1), key.hex(), iv.hex(), hexs(pt)))   # buffer too short
     for kl in (0, 15, 17, 33):
         out.append("aes_enc 64 %s %s %s" % (hexs(rng.bytes(kl)), rng.bytes(16).hex(), rng.bytes(20).hex()))
+    # FIPS 197 appendix C through CBC with a zero IV (the first ciphertext block is the block cipher output), extreme keys and blocks
+    pt = "00112233445566778899aabbccddeeff"
+    for kl in (16, 24, 32):
+        out.append("aes_enc 32 %s %s %s" % (bytes(range(kl)).hex(), "00" * 16, pt))
+        for kb, pb in ((0x00, 0x00), (0xff, 0xff), (0x00, 0xff), (0xff, 0x00), (0x52, 0x52), (0x63, 0x63)):
+            out.append("aes_enc 48 %s %s %s" % (("%02x" % kb) * kl, "00" * 16, ("%02x" % pb) * 32))
     return out
 
 
@@ -182,6 +188,28 @@ def gen_dec_lines(rng, tier, enc_pairs):
         ivb = bytearray.fromhex(iv)
         ivb[15] ^= rng.choice([1, 2, 0x10, 0xff])
         out.append("aes_dec %d %s %s %s" % (n, key, ivb.hex(), ct))
+        # controlled alterations of single bytes of the LAST PLAINTEXT block (through the preceding ciphertext block, or the IV for
+        # a one-block message): the first padding byte, a middle one, the last data byte (still well formed), the padding length
+        # byte raised / lowered by one, set to 0 and to 17
+        pl = 0 if t[4] == "." else len(t[4]) // 2
+        padlen = 16 - pl % 16
+        def alter(pos, mask):
+            if n >= 32:
+                c = bytearray(b)
+                c[n - 32 + pos] ^= mask
+                return "aes_dec %d %s %s %s" % (n, key, iv, c.hex())
+            v = bytearray.fromhex(iv)
+            v[pos] ^= mask
+            return "aes_dec %d %s %s %s" % (n, key, v.hex(), ct)
+        out.append(alter(16 - padlen, 1 << rng.below(8)))                       # first padding byte
+        if padlen > 2:
+            out.append(alter(16 - padlen + 1 + rng.below(padlen - 2), 0x80))    # a middle padding byte
+        if padlen < 16:
+            out.append(alter(16 - padlen - 1, 1 << rng.below(8)))               # last data byte: accepted, other plaintext
+        out.append(alter(15, padlen ^ (padlen + 1)))                            # length byte + 1
+        out.append(alter(15, padlen ^ (padlen - 1)))                            # length byte - 1 (0 for padlen 1)
+        out.append(alter(15, padlen))                                           # length byte 0
+        out.append(alter(15, padlen ^ 17))                                      # length byte 17
         out.append("aes_dec %d %s %s %s" % (n, key, iv, ct[:-2]))    # not a multiple of the block size
     out.append("aes_dec 16 %s %s ." % (rng.bytes(16).hex(), rng.bytes(16).hex()))
     return out
